@@ -361,9 +361,42 @@ MUTANTS += [
       [("    backend = XandikosBackend(directory)\n    backend._mark_as_principal(current_user_principal)\n\n    if autocreate or defaults:",
         "    backend = XandikosBackend(directory)\n\n    if autocreate or defaults:")],
       "run_simple_server no longer registers the principal path"),
+    # --- round-3 rules (independent of the seeded patches that motivated them) ---
+    M("exit-unlinks-lock-by-path", {"C05": ["L6"]}, G,
+      [("        if exc_type is not None:\n            self._file.abort()\n            return\n",
+        "        if exc_type is not None:\n            self._file.abort()\n            if os.path.exists(self._path + \".lock\"):\n                os.unlink(self._path + \".lock\")\n            return\n")],
+      "locked_index.__exit__ removes index.lock by path after aborting (may be the next holder's lock)"),
+    M("uid-map-module-level", {"C05": ["L7"]}, G,
+      [("        self._uid_to_fname: dict[str, tuple[bytes, str]] = {}\n", "        self._uid_to_fname = _UID_TO_FNAME\n"),
+       ("class locked_index:", "_UID_TO_FNAME: dict = {}\n\n\nclass locked_index:")],
+      "uid -> name map is one module-level dict shared by all stores"),
+    M("listing-by-suffix-table", {"C06": ["U7"]}, G,
+      [("            (mime_type, _) = MIMETYPES.guess_type(name)\n",
+        "            mime_type = {\".ics\": \"text/calendar\", \".vcf\": \"text/vcard\"}.get(os.path.splitext(name)[1])\n")],
+      "listing classifies names with a case-sensitive suffix table, the uid scan with MIMETYPES"),
+    M("open-parent-directory", {"C13": ["P1", "P2", "P3", "P4"]}, G,
+      [("            return cls.open(dulwich.repo.Repo(path), **kwargs)", "            return cls.open(dulwich.repo.Repo(os.path.dirname(path)), **kwargs)")],
+      "open_from_path opens the parent directory"),
+    M("order-zero-reads-unset", {"C15": ["M8"]}, W,
+      [("        order = self.store.config.get_order()\n        if not order:\n            raise KeyError",
+        "        order = self.store.config.get_order()\n        if not order or order == \"0\":\n            raise KeyError")],
+      "calendar-order 0 is stored but reads back as not set"),
+    M("href-prefix-strip", {"C17": ["M6"], "C18": ["S9"]}, D,
+      [("        path = href[len(script_name) :]\n", "        path = href.strip(script_name)\n")],
+      "route prefix removed with str.strip (a character set, both ends)"),
+    M("type-defaults-to-calendar", {"C18": ["S9"]}, CF,
+      [("        return self._configparser[\"DEFAULT\"][\"type\"]", "        return self._configparser[\"DEFAULT\"].get(\"type\") or \"calendar\"")],
+      "file metadata without a recorded type claims to be a calendar (address books are misreported)"),
+    M("time-range-index-needs-dtstart", {"C10": ["X10"], "C11": ["I2"]}, IC,
+      [("        try:\n            component_handler = self.component_handlers[self.comp]\n        except KeyError:\n            logging.warning(\"unknown component %r in time-range filter\", self.comp)\n            return False\n        return component_handler(\n            self.start,\n            self.end,\n            # TODO",
+        "        if \"DTSTART\" not in vs:\n            return False\n        try:\n            component_handler = self.component_handlers[self.comp]\n        except KeyError:\n            logging.warning(\"unknown component %r in time-range filter\", self.comp)\n            return False\n        return component_handler(\n            self.start,\n            self.end,\n            # TODO")],
+      "indexed time-range answers False without DTSTART (VTODO with only DUE matches on the naive path)"),
 ]
 
 BENIGN: List[M] = [
+    M("b-href-removeprefix", {p: [] for p in ("C13", "C16", "C17", "C18")}, D,
+      [("        path = href[len(script_name) :]\n", "        path = href.removeprefix(script_name)\n")],
+      "route prefix removed with str.removeprefix", benign=True),
     M("b-rename-local", {p: [] for p in ("C01", "C02", "C03", "C05", "C06", "C14")}, D,
       [("        if r is not None:\n            current_etag = await r.get_etag()\n        else:\n            current_etag = None\n        if_match = request.headers.get(\"If-Match\", None)\n        if if_match is not None and not etag_matches(if_match, current_etag):\n            return Response(status=\"412 Precondition Failed\")\n        if_none_match = request.headers.get(\"If-None-Match\", None)\n        if if_none_match and etag_matches(if_none_match, current_etag):\n            return Response(status=\"412 Precondition Failed\")\n        if r is not None:\n            # Item already exists; update it\n            try:\n                new_etag = await r.set_body(new_contents, current_etag)",
         "        if r is not None:\n            cur = await r.get_etag()\n        else:\n            cur = None\n        if_match = request.headers.get(\"If-Match\", None)\n        if if_match is not None and not etag_matches(if_match, cur):\n            return Response(status=\"412 Precondition Failed\")\n        if_none_match = request.headers.get(\"If-None-Match\", None)\n        if if_none_match and etag_matches(if_none_match, cur):\n            return Response(status=\"412 Precondition Failed\")\n        if r is not None:\n            # Item already exists; update it\n            try:\n                new_etag = await r.set_body(new_contents, cur)")],
